@@ -34,6 +34,10 @@ pub enum Case {
     /// a phrase whose wording differs between the languages beyond single words: (language, the
     /// line in that language, its English counterpart)
     Pair { lang: String, line: String, en: String },
+    /// ONE session: the first text evaluated in English binds `t` to a date-time, then the session's
+    /// language is switched and the second text is evaluated: the date-time result is printed with
+    /// the month names of the language in force (month number, year expected in the output)
+    SessionSwitch { lang: String, first: String, second: String, month: u32, year: i32 },
     /// an operator word of `lang` against the operator symbol
     OpWord { lang: String, word: String, op: char, form: u8 },
 }
@@ -461,6 +465,31 @@ impl Prop for C19 {
                 }
             },
         ));
+        {
+            let langs = langs.clone();
+            f.push(Family::new(
+                "session-language-switch",
+                Mode::Full,
+                "ONE session: English 't = 5 <month> 1999 at 8:15' for every month, then set_language(L) for every other configured language L and 't', 't + 1 <hour>' , 't - 40 <days>' (L's own words): the date-time result is printed with L's short month name (a date-time can only be written in English; the language in force when a value is printed decides the words)",
+                move |ch| {
+                    let l = ch.pick(&langs).clone();
+                    let m = 1 + ch.choose(12) as u32;
+                    let en_month = crate::props::c09::month_names("en", m as i64)[0].clone();
+                    let first = format!("t = 5 {} 1999 at 8:15", en_month);
+                    let (second, month, year) = match ch.choose(3) {
+                        0 => ("t".to_string(), m, 1999),
+                        1 => (format!("t + 1 {}", word(&l, &W::Const(7, 0), false)?), m, 1999),
+                        _ => {
+                            // 40 days back from the 5th lands in the month before the previous one's end: compute it
+                            let d0 = cal::days_from_civil(1999, m as i64, 5) - 40;
+                            let (y, mm, _) = cal::civil_from_days(d0);
+                            (format!("t - 40 {}", word(&l, &W::Const(1, 0), false)?), mm as u32, y as i32)
+                        }
+                    };
+                    Some(Case::SessionSwitch { lang: l, first, second, month, year })
+                },
+            ));
+        }
         f.push(Family::new(
             "operator-word-synonyms",
             Mode::Full,
@@ -597,6 +626,31 @@ impl Prop for C19 {
                 relate(calc, lang, &tl, &te)
             }
             Case::Pair { lang, line, en } => relate(calc, lang, line, en),
+            Case::SessionSwitch { lang, first, second, month, year } => {
+                let mut session = smartcalc::Session::new();
+                session.set_language("en".to_string());
+                let a = obs::eval_session(calc, &mut session, Some(first));
+                session.set_language(lang.clone());
+                let b = obs::eval_session(calc, &mut session, Some(second));
+                let mut v = Verdict { input: format!("[en] {} ;; set_language({}) ;; {}", first, lang, second), class: "printed-words-compared", compared: true, evals: 2, observed: format!("{} ;; {}", a.brief(), b.brief()), ..Default::default() };
+                let names: Vec<String> = spec().json["languages"][lang.as_str()]["short_months"].as_object().map(|o| o.iter().filter(|(_, n)| n.as_u64() == Some(*month as u64)).map(|(k, _)| k.to_lowercase()).collect()).unwrap_or_default();
+                v.expected = format!("a date-time of {} printed with one of the short month names {:?} of {}", year, names, lang);
+                match b.last() {
+                    Some(Slot::Ok { val: Val::DateTime { .. }, out }) => {
+                        let low = out.to_lowercase();
+                        if !names.iter().any(|n| low.split(' ').any(|w| w == n)) || !out.contains(&year.to_string()) {
+                            v.violation = Some("the date-time is not printed with the month name of the language in force".into());
+                        }
+                    }
+                    _ => {
+                        if let Run::Panic(p) = &b {
+                            v.site = Some(p.site.clone());
+                        }
+                        v.violation = Some("the date-time held in the session is not evaluated after the language switch".into());
+                    }
+                }
+                v
+            }
         }
     }
 
